@@ -27,6 +27,7 @@ MC_INIT
     register_flat<std::less<int>>("");
     register_flat<std::greater<int>>("_greater");
     register_flat<HalfLess>("_half_less");
+    mc::add_check("flat_map_record_key", [] { c02::rec_key_body<igris::flat_map<c02::Rec, int>, c02::StdRecRef>("flat_map"); });
     // two maps A, B with copy/move between them
 #if TIER_THOROUGH // the tier is not known yet when the registration code runs: build.sh passes it
     mc::add_bfs("flat_map_pair", [] { return std::unique_ptr<mc::Model>(new c02::MapModel<igris::flat_map<int, int>, c02::StdMapRefT<>>("flat_map", 2, 2, false)); });
